@@ -1,12 +1,14 @@
 PROPERTY = "C18"
 LEVEL = "proof"
-LEAN_MODULES = ["CifModel.Props.C18"]
+LEAN_MODULES = ["CifModel.Props.C18", "CifModel.Props.C18Text"]
 REQUIRED = ["CifModel.C18_stats_exact", "CifModel.C18_maxRun_spec", "CifModel.C18_delim_permitted", "CifModel.C18_delim_admissible",
-            "CifModel.C18_prefers_simple", "CifModel.C18_reserved_iff", "CifModel.C18_set_unquoted_iff", "CifModel.C18_try_quoted"]
+            "CifModel.C18_prefers_simple", "CifModel.C18_reserved_iff", "CifModel.C18_set_unquoted_iff", "CifModel.C18_try_quoted",
+            "CifModel.C18_delim_lexically_admissible", "CifModel.C18_delim_reads_back", "CifModel.C18_delim_reads_back_text"]
 GEN = ["ErrCodes"]
 FAMILIES = ["analyze", "reserved", "setq"]
 TRUSTED_BASE = [
     "Lean 4.33.0 kernel; axioms propext, Classical.choice, Quot.sound only",
+    "the scanner model Model/Lexer.lean and the lexical grammar Spec/Lexical.lean of property C01 (read-back theorem)",
     "hand-written model Model/Analyze.lean (cif_analyze_string, cif_is_reserved_string, cif_value_set_quoted_impl), tied to "
     "src/utils.c / src/value.c by the families analyze (exhaustive short strings x flags x limits), reserved, setq",
     "Spec/Analyze.lean: line decomposition (LF, CR LF, CR), semicolon runs, CIF 2.0 whitespace-delimited strings and reserved forms",
@@ -19,9 +21,8 @@ ASSUMPTIONS = [
     "(the latter for VT-free strings)",
 ]
 PARTIAL = [
-    "C18_delim_reads_back_full is stated (def) over the lexer model of C01 (other group) and not proved here; its premises are "
-    "C18_delim_admissible; read-back is covered at the implementation level by the `analyze` family (every recommended presentation "
-    "parsed by the real cif_parse at columns 1, 2, limit-aligned and after the data name)",
+    "C18_delim_reads_back_text covers the PLAIN text field (contains_text_delim = 0, has_reserved_start = 0, lines within the limit); "
+    "text-field recommendations that need the fold / prefix protocol are read back by C02_text_protocol (writer group), not here",
 ]
 LEVEL_TEXT = ("Proof: for every string, flag pair and limit the model's statistics equal those of the line decomposition "
               "(C18_stats_exact, by loop invariants), the recommended delimiter is permitted (C18_delim_permitted), admissible and "
@@ -30,5 +31,6 @@ LEVEL_TEXT = ("Proof: for every string, flag pair and limit the model's statisti
               "(C18_set_unquoted_iff) and cif_is_reserved_string = reserved form (C18_reserved_iff). Model tied to the code by "
               "exhaustive differential execution; read-back through the real parser checked on every case.")
 LEVEL_NOTE = ("Trusted: Lean kernel; hand-written model + correspondence; Spec/Analyze.lean as the meaning of the CIF rules. "
-              "Read-back theorem over the lexer model is stated, not proved (implementation-level oracle instead).")
+              "Read-back (C18_delim_reads_back) is proved over the scanner model of C01 (C01_lex_value_after_ws) and, for plain text fields, "
+              "over the decode_text model of C02; it is additionally observed through the real cif_parse on every case.")
 TECHNIQUE = "Lean 4 proof (loop invariants, case analysis) about an executable model + exhaustive differential execution incl. read-back through the real parser"
